@@ -487,9 +487,16 @@ class C13(PropBase):
         return " ".join(toks)
 
     def cfi_q_case(self, rng):
-        """Q: STACK CFI rules (constants / failing expressions) over arm64 register names incl. both names of x29 and x30, names the
-        walker does not know, re-definitions on the same and on later lines; model = C13.Cfi.a64_walk"""
-        pool = ["x19", "x20", "x21", "x28", "x29", "fp", "x30", "lr", "x0", "x31", "foo", "x29", "fp"]
+        """Q: STACK CFI rules (constants / failing expressions) over arm64 or arm register names incl. both names of the frame pointer
+        and of the link register, names the walker does not know, re-definitions on the same and on later lines, (arm) values that do
+        not fit 32 bits; model = C13.Cfi.arch_walk"""
+        arm = rng.chance(1, 3)
+        if arm:
+            pool = ["r4", "r5", "r6", "r10", "r11", "fp", "r14", "lr", "r0", "r12", "r16", "foo", "r11", "fp"]
+            saved = ["r4", "r5", "r6", "r7", "r8", "r9", "r10", "fp", "r0", "r12"]
+        else:
+            pool = ["x19", "x20", "x21", "x28", "x29", "fp", "x30", "lr", "x0", "x31", "foo", "x29", "fp"]
+            saved = ["x19", "x20", "x21", "x22", "x23", "x24", "x25", "x26", "x27", "x28", "fp", "x0"]
         used = set()
         def val():
             if rng.chance(1, 8):
@@ -498,52 +505,13 @@ class C13(PropBase):
                 v = rng.range(100, 999)
                 if v not in used:
                     used.add(v)
-                    return str(v)
+                    return str(v + (1 << 32) if arm and rng.chance(1, 8) else v)
         lines = []
         for i in range(rng.range(1, 4)):
             n = rng.below(4) if i == 0 else rng.range(1, 4)
             lines.append(",".join("%s=%s" % (rng.choice(pool), val()) for _ in range(n)) or "-")
-        callee = ",".join("%s=%d" % (n, rng.range(1000, 9999)) for n in ["x19", "x20", "x21", "x22", "x23", "x24", "x25", "x26", "x27", "x28", "fp", "x0"])
-        return "Q %s %s" % (callee, ";".join(lines))
-
-    def unloaded_overlap_case(self, rng):
-        """frames that lie in no loaded module but in 2..6 overlapping UNLOADED modules with different names (the context frame
-        of one thread; CFI caller frames of another, whose return addresses point there): the per-frame list of unloaded
-        modules + offsets must come out in one order"""
-        cpu = rng.choice(["amd64", "x86", "arm64"])
-        bits, ips, sps, fps, lrs, pre = CPUS[cpu]
-        w = bits // 8
-        sp = pre + sps[0]
-        base, size = 0x400000, 0x10000
-        ubase = 0x700000
-        toks = ["cpu=" + cpu, "os=" + rng.choice(["win", "win", "linux", "mac"]), "opt=%d" % rng.below(3)]
-        text = ("MODULE Linux %s 000000000000000000000000000000000 live\nFUNC 0 %x 0 live_fn\nSTACK CFI INIT 0 %x .cfa: %s %d + .ra: .cfa %d - ^\n"
-                % (cpu, size, size, sp, 2 * w, w))
-        toks.append("S=" + hx(text.encode()))
-        toks.append("M=%d:%d:%s:0" % (base, size, hx(b"/lib/live.so")))
-        names = []
-        while len(names) < rng.range(2, 6):
-            n = rng.choice(["gone", "old", "plugin", "Zed", "a", "b", "unl", "x"]) + rng.choice(["", "1", "2", "_v2"]) + rng.choice([".dll", ".so"])
-            if n not in names:
-                names.append(n)
-        for n in names:
-            ub = ubase - 0x1000 * rng.below(4)
-            toks.append("U=%d:%d:%s" % (ub, 0x20000 + 0x1000 * rng.below(8), hx(n.encode())))
-            if rng.chance(1, 4):
-                toks.append("U=%d:%d:%s" % (ub + 0x100, 0x20000, hx(n.encode())))     # the same name twice: two offsets
-        for t in range(rng.range(1, 3)):
-            sb = 0x20000 + t * 0x10000
-            words = []
-            for k in range(8):
-                words.append(ubase + 0x100 + rng.below(0x8000) if k % 2 else sb + w * (k + 2))
-            stack = b"".join((x & ((1 << bits) - 1)).to_bytes(w, "little") for x in words)
-            ip = ubase + 0x40 + rng.below(0x4000) if (t == 0 or rng.chance(1, 2)) else base + 0x40 + 4 * rng.below(0x40)
-            regs = ["%s=%d" % (n, ip) for n in ips]
-            regs += ["%s=%d" % (n, sb) for n in sps]
-            regs += ["%s=%d" % (n, sb + 2 * w) for n in fps]
-            regs += ["%s=%d" % (n, base + 0x80) for n in lrs]
-            toks.append("T=%d:%d:%s:%s" % (t + 1, sb, hx(stack), ",".join(regs)))
-        return " ".join(toks)
+        callee = ",".join("%s=%d" % (n, rng.range(1000, 9999)) for n in saved)
+        return "Q %s %s%s" % (callee, ";".join(lines), " arm" if arm else "")
 
     def adaptive_case(self, rng):
         """A: 2..5 adaptive walks (decision trees of depth <= 4 over 2..5 modules: the next module depends on whether the last
